@@ -16,6 +16,10 @@ CLAIMS = {
    text='Partial: for all five built-in ambisonics orders demixing x mixing = gain*I (exhaustive over the constant matrices) with consistent headers/sizes and matching order selection; the 8 Vorbis layouts are valid permutation layouts equal to RFC 7845; one self-delimiting predicate at all five multistream sites; (selector, lane, stride) routing pairs in encoder and decoder and the selector bodies; creation guards dominate allocation/layout stores. Bit-exact equality with stand-alone decoding is NOT decided.',
    note=TRUST + 'RFC 7845 family-1 table transcribed into the checker.',
    technique='table predicates on evaluated initialisers + edge-dominance guard facts + sibling agreement of call-site arguments'),
+ 'C15': dict(category='other',
+   text='Partial (dispatch soundness, a necessary condition only): every RTCD table entry at level i comes from a TU whose -m ISA flags are within level i, selectable entries non-NULL, max(opus_select_arch) indexes an initialised entry, every table use is masked, no direct call into a TU with more ISA flags, and each level is returned only after CPUID tests covering the flags its kernels were compiled with. Numerical/bit identity of SIMD kernels vs C is NOT decided (run-time relation).',
+   note=TRUST + 'CPUID feature-bit table (leaf/register/bit) in the checker; -m flags from the cmake compilation database.',
+   technique='function-pointer table predicates joined with compile-database ISA flags + must-dataflow over the CPU-detection CFG'),
  'C17': dict(category='other',
    text='Partial: the data clauses are decided exhaustively (every iCDF table reaching a coder call is strictly decreasing/zero-terminated from every offset; PVQ U table equals the exact recurrence, V<2^32 and in-row for every reachable (N,K); pulse cache equals ceil(8 log2 V)-1 and is monotone; Laplace parameters within preconditions). Bijectivity of cwrsi/icwrs and Laplace tiling are NOT decided.',
    note=TRUST + 'Python port of log2_frac as generator oracle for the pulse cache.',
